@@ -275,6 +275,43 @@ func withWatchdog(what string, f func()) (proof string, ok bool) {
 	return "", true
 }
 
+// stormIters counts the API calls made by storm goroutines of the current case.
+var stormIters int64
+
+// stormBody is what one storm goroutine does: the even ones only ask for the
+// list (many short attempts at the moment the closed flag flips), the odd ones
+// add and remove (they hold the lock across system calls, so that the others
+// queue for it).
+func stormBody(w *fsnotify.Watcher, g int) {
+	if g%2 == 0 {
+		for i := 0; i < 300; i++ {
+			w.WatchList()
+			atomic.AddInt64(&stormIters, 1)
+			if i%16 == 15 {
+				runtime.Gosched()
+			}
+		}
+		return
+	}
+	for i := 0; i < 80; i++ {
+		if (i+g)%2 == 0 {
+			w.Add([]string{"d0", "d1", "u"}[i%3])
+		} else {
+			w.Remove([]string{"d1", "u"}[i%2])
+		}
+		atomic.AddInt64(&stormIters, 1)
+	}
+}
+
+// midStorm waits (bounded) until the storm has made n calls, so that what
+// follows lands in the middle of it rather than at its start.
+func midStorm(n int) {
+	deadline := time.Now().Add(200 * time.Millisecond)
+	for atomic.LoadInt64(&stormIters) < int64(n) && time.Now().Before(deadline) {
+		runtime.Gosched()
+	}
+}
+
 // guarded runs one API call under the watchdog and returns the proof that it
 // is blocked forever, or "".
 func guarded(what string, f func()) string {
